@@ -1025,6 +1025,50 @@ class C01(Property):
     def _aborts(E):
         return E is not None and ((E[0] == 'p' and E[1] in ('x', 'y')) or E[0] == 'mx')
 
+    def _taken(self, case, idx, default):
+        """how many items of a raising argument the implementation was seen to take over at op #idx (the statement leaves
+        it open; the oracle accepts every prefix): the model is asked about that prefix.  Unknown -> what the code does."""
+        rec = getattr(self, '_seen_taken', {}).get(id(case))
+        if rec is not None and rec[0] is case:
+            return rec[1].get(idx, default)
+        return default
+
+    def _note_taken(self, case, out):
+        """after impl(): read the number of items taken over by each aborted call off the pair lists before / after it"""
+        js = {}
+        ops = case['ops']
+        for idx, op in enumerate(ops):
+            if idx >= len(out) or 'dump' not in out[idx] or out[idx]['ret'][0] != 'X':
+                continue
+            after = out[idx]['dump'].get('im')
+            before = out[idx - 1]['dump'].get('im') if idx and 'dump' in out[idx - 1] else []
+            if not isinstance(after, list) or not isinstance(before, list):
+                continue
+            if op[0] == 'addlist' and op[2] == 'x':
+                js[idx] = max(0, min(len(op[3]), len(after) - len(before)))
+            elif op[0] in ('upd', 'ior', 'ext') and self._aborts(op[1]):
+                ps = [tuple(p) for p in op[1][-1]]
+                L = [tuple(p) for p in before]
+                for j in range(len(ps), -1, -1):
+                    if op[0] == 'ext':
+                        c = L + ps[:j]
+                    elif op[1][0] == 'mx':
+                        c = L
+                        for k, v in ps[:j]:
+                            c = self._assign(c, k, v)
+                    else:
+                        c = self._replace_by(L, ps[:j])
+                    if [list(p) for p in c] == after:
+                        js[idx] = j
+                        break
+        m = self.__dict__.setdefault('_seen_taken', {})
+        if len(m) > 20000:
+            m.clear()
+        if js:
+            m[id(case)] = (case, js)
+        else:
+            m.pop(id(case), None)
+
     def line(self, case):
         toks = [str(NK)]
         for op in case['ops']:
@@ -1032,16 +1076,17 @@ class C01(Property):
             if o in ('new', 'upd', 'ext', 'ior') and self._aborts(op[1]):
                 # the argument iterable raises after its pairs: keyword arguments are never reached
                 mx = op[1][0] == 'mx'
+                taken = op[1][-1][:self._taken(case, len(toks) - 1, len(op[1][-1]))]
                 toks.append({'new': 'newx', 'upd': 'updmx:' if mx else 'updx:', 'ior': 'updmx:' if mx else 'updx:',
-                             'ext': 'extx:'}[o] + ('' if o == 'new' else self._pairs_tok(op[1][-1])))
+                             'ext': 'extx:'}[o] + ('' if o == 'new' else self._pairs_tok(taken)))
             elif o == 'new':
                 toks.append('new:%s:%s' % (self._arg_tok(op[1]), self._pairs_tok(op[2])))
             elif o in ('add', 'set'):
                 toks.append('%s:%d:%d' % (o, op[1], op[2]))
             elif o == 'addlist':
                 # `L`: the argument is a list OBJECT of the caller's, which the caller writes to after the call
-                toks.append('addlist%s:%d:%s' % ({'x': 'x', 'l': 'L'}.get(op[2], ''), op[1],
-                                                  ','.join(map(str, op[3])) or '-'))
+                vs = op[3][:self._taken(case, len(toks) - 1, 0)] if op[2] == 'x' else op[3]
+                toks.append('addlist%s:%d:%s' % ({'x': 'x', 'l': 'L'}.get(op[2], ''), op[1], ','.join(map(str, vs)) or '-'))
             elif o == 'del':
                 toks.append('del:%d' % op[1])
             elif o in ('upd', 'ext'):
@@ -1163,6 +1208,7 @@ class C01(Property):
             out.append({'exc': 'CaseTimeout'})
         except Exception as e:      # harness-level surprise: recorded, judged by the oracle
             out.append({'exc': exc_name(e), 'msg': str(e)[:200]})
+        self._note_taken(case, out)
         return out
 
     def _apply(self, cx, cls, s, t, op):
